@@ -81,6 +81,26 @@ pub fn cells_same_type(pool: &[Value]) -> Vec<Cell> {
     out
 }
 
+/// calendar cells: the six calendar parts of every instant, the instant rebuilt from its second count, one day added to
+/// it and one second subtracted from it
+pub fn cells_calendar(pool: &[Value]) -> Vec<Cell> {
+    let mut out = vec![];
+    let day = Value::Duration(chrono::TimeDelta::days(1));
+    let sec = Value::Duration(chrono::TimeDelta::seconds(1));
+    for a in pool {
+        for op in ["year", "month", "day", "hour", "minute", "second"] {
+            out.push(Cell { op: op.into(), class: "un", a: a.clone(), b: None, expr: mk_un(op, lit(a)) });
+        }
+        if let Value::DateTime(t) = a {
+            let n = Value::Int(t.timestamp() as i128);
+            out.push(Cell { op: "datetime".into(), class: "un", a: n.clone(), b: None, expr: mk_un("datetime", lit(&n)) });
+        }
+        out.push(Cell { op: "add".into(), class: "bin", a: a.clone(), b: Some(day.clone()), expr: mk_bin("add", lit(a), lit(&day)) });
+        out.push(Cell { op: "sub".into(), class: "bin", a: a.clone(), b: Some(sec.clone()), expr: mk_bin("sub", lit(a), lit(&sec)) });
+    }
+    out
+}
+
 pub struct CellOutcome {
     pub impl_out: String,
     pub model: ModelReply,
